@@ -847,7 +847,7 @@ impl Prop for C06 {
     }
     fn runs(&self, tier: Tier) -> u64 {
         match tier {
-            Tier::Quick => 2500,
+            Tier::Quick => 4500,
             Tier::Thorough => 30000,
         }
     }
